@@ -86,6 +86,12 @@ func suiteC17(c *ctx) {
 		}
 		jobs = append(jobs, j)
 	}
+	// a Reader recycled onto another source must leave the buffer it once borrowed (and the next
+	// Reader on it) alone
+	for i := 0; i < c.n(24); i++ {
+		checkAlias(c.rep, &aliasCase{Prop: "C17", ID: fmt.Sprintf("C17-a%d", i), API: []string{"gzip", "zlib", "flate"}[i%3], Buf: r.Pick([]int{16, 512, 4096, 65536}),
+			N1: r.Pick([]int{5, 3000, 70000}), N2: r.Pick([]int{2000, 40000, 200000}), Seed: r.U64()})
+	}
 	solo := make([]string, len(jobs))
 	for i, j := range jobs {
 		solo[i] = j.run()
